@@ -108,7 +108,7 @@ var specs = []CheckSpec{
 		Outside:     []string{"Windows case folding of variable names", "malformed references such as ${ or $ at end of word (os.Expand's documented behaviour)", "the regexp matcher"},
 	},
 	{
-		ID: "C05", Pkg: "cache",
+		ID: "C05", Pkg: "cache", UsesVFS: true,
 		Harnesses: []HarnessSpec{
 			{Fn: "VerifC05History", Quick: map[string]int{"OPS": 3, "L": 1, "DAMAGE": 0}, Thorough: map[string]int{"OPS": 3, "L": 2, "DAMAGE": 0}, Witness: []string{"put", "getbytes-hit", "getfile-hit", "getbytes-miss"}},
 			{Fn: "VerifC05HistoryDamage", Quick: map[string]int{"OPS": 2, "L": 1, "DPOS": 2}, Thorough: map[string]int{"OPS": 2, "L": 1, "DPOS": 15}, Witness: []string{"put", "damaged"}},
@@ -126,7 +126,7 @@ var specs = []CheckSpec{
 		Outside:     []string{"more than two action IDs / three operations", "index entries differing from a valid entry in more than 2 non-adjacent places (except the OutputID field, fully arbitrary)", "GODEBUG gocacheverify mode"},
 	},
 	{
-		ID: "C12", Pkg: "cache",
+		ID: "C12", Pkg: "cache", UsesVFS: true,
 		Harnesses: []HarnessSpec{
 			{Fn: "VerifC12FileFault", Quick: map[string]int{"L": 2}, Thorough: map[string]int{"L": 4}, Witness: []string{"crash", "fault", "fault-hit", "put-reported-error", "overwrite-same-content", "overwrite-different-content", "output-trimmed-index-kept", "after-getbytes-hit", "after-getbytes-miss", "after-getfile-hit"}},
 			{Fn: "VerifC12Reader", Quick: map[string]int{"L": 2}, Thorough: map[string]int{"L": 4}, Witness: []string{"reader-fails", "seek-fails", "second-pass-shorter", "second-pass-differs", "put-reported-error"}},
@@ -141,7 +141,7 @@ var specs = []CheckSpec{
 		Outside:     []string{"two faults in one Put", "data larger than the 32 KiB copy buffer (several writes per copy)", "real SIGKILL of a writing process"},
 	},
 	{
-		ID: "C13", Pkg: "cache",
+		ID: "C13", Pkg: "cache", UsesVFS: true,
 		Harnesses: []HarnessSpec{
 			{Fn: "VerifC13Trim", Quick: map[string]int{"E": 1, "LK": 1}, Thorough: map[string]int{"E": 2, "LK": 1}, Witness: []string{"due", "not-due", "stale-removed", "lookup-before-trim", "trim-record-missing", "trim-record-digits", "trim-record-corrupt", "trim-record-unreadable"}},
 		},
@@ -154,9 +154,9 @@ var specs = []CheckSpec{
 		Outside:     []string{"more than two files per subdirectory; interplay between subdirectories (the other 255 are empty)", "last-trim records in the future: only the safety clauses are asserted", "sub-second timestamps"},
 	},
 	{
-		ID: "C06", Pkg: "lockedfile",
+		ID: "C06", Pkg: "lockedfile", UsesVFS: true,
 		Harnesses: []HarnessSpec{
-			{Fn: "VerifC06OpenFile", Quick: map[string]int{"R": 2}, Thorough: map[string]int{"R": 8}, Witness: []string{"opened", "open-failed", "lock-failed", "write-lock", "read-lock", "truncated"}},
+			{Fn: "VerifC06OpenFile", Quick: map[string]int{"R": 2}, Thorough: map[string]int{"R": 8}, Witness: []string{"opened", "open-failed", "lock-failed", "write-lock", "read-lock", "truncated", "non-regular-file", "truncate-failure-ignored-for-non-regular-file"}},
 			{Fn: "VerifC06API", Quick: map[string]int{}, Thorough: map[string]int{}, Witness: []string{"api", "mutex"}},
 		},
 		Bounds: map[string]string{
@@ -168,7 +168,7 @@ var specs = []CheckSpec{
 		Outside:     []string{"whether the kernel honours the flock contract; NFS; the fcntl/plan9/windows lock files", "the sync.Mutex inside lockedfile.Mutex (goroutine-level, redundant)", "the cross-holder composition itself is by the stated argument, not mechanised"},
 	},
 	{
-		ID: "C07", Pkg: "lockedfile",
+		ID: "C07", Pkg: "lockedfile", UsesVFS: true,
 		Harnesses: []HarnessSpec{
 			{Fn: "VerifC07Sequential", Quick: map[string]int{"L": 3}, Thorough: map[string]int{"L": 8}, Witness: []string{"read", "write", "grow", "shrink"}},
 			{Fn: "VerifC07NothingBeforeLock", Quick: map[string]int{"L": 3}, Thorough: map[string]int{"L": 8}, Witness: []string{"write", "create"}},
@@ -183,7 +183,7 @@ var specs = []CheckSpec{
 		Outside:     []string{"two simultaneous faults (rollback is best-effort)", "durability across power loss", "a failing Close after a successful write (not a write step: the new contents are published and the error is returned)"},
 	},
 	{
-		ID: "C15", Pkg: "txtar",
+		ID: "C15", Pkg: "txtar", UsesVFS: true,
 		Harnesses: []HarnessSpec{
 			{Fn: "VerifC15Write", Quick: map[string]int{"E": 1, "NL": 6}, Thorough: map[string]int{"E": 1, "NL": 9}, Witness: []string{"created", "written", "escaping-name"}},
 			{Fn: "VerifC15WriteTwo", Quick: map[string]int{"E": 2, "NL": 3}, Thorough: map[string]int{"E": 2, "NL": 4}, Witness: []string{"created", "written", "escaping-name"}},
@@ -197,7 +197,7 @@ var specs = []CheckSpec{
 		Outside:     []string{"the txtar-c / txtar-x directory-tree round trip (needs a directory-walk model that was not built)", "symbolic links inside the target directory", "a target directory that does not exist"},
 	},
 	{
-		ID: "C01", Pkg: "testscript",
+		ID: "C01", Pkg: "testscript", UsesVFS: true,
 		Harnesses: []HarnessSpec{
 			{Fn: "VerifC01Verdict", Quick: map[string]int{"K": 2}, Thorough: map[string]int{"K": 3}, Witness: []string{"pass", "fail", "skip", "continue-on-error"}},
 			{Fn: "VerifC01Exit", Pkg: "cmd/testscript", Quick: map[string]int{}, Thorough: map[string]int{}, Witness: []string{"some-script-failed", "no-script-failed", "two-scripts"}},
@@ -211,7 +211,7 @@ var specs = []CheckSpec{
 		Outside:     []string{"exec, background commands (&), kill, wait on real processes, grep/stdout/stderr matching on symbolic text, symlink, unix2dos, cmpenv (C16 covers cmpenv under UpdateScripts), stdin/ttyin", "parallel subtests (C04)", "the standalone command's flag parsing, stdin handling and os.Exit call (the harness mirrors the tail of mainerr: r.Run + r.failed)", "scripts longer than the bound"},
 	},
 	{
-		ID: "C16", Pkg: "testscript",
+		ID: "C16", Pkg: "testscript", UsesVFS: true,
 		Harnesses: []HarnessSpec{
 			{Fn: "VerifC16Update", Quick: map[string]int{"G": 2, "A": 2, "C": 1}, Thorough: map[string]int{"G": 2, "A": 3, "C": 2}, Witness: []string{"update", "no-update", "quoted-update", "rerun", "actual-has-marker", "cmp-from-subdirectory"}},
 		},
@@ -224,9 +224,9 @@ var specs = []CheckSpec{
 		Outside:     []string{"actual content from stderr or files (same code path: ts.ReadFile)", "more than two golden entries / comparison lines", "scripts whose golden names need expansion"},
 	},
 	{
-		ID: "C04", Pkg: "testscript",
+		ID: "C04", Pkg: "testscript", UsesVFS: true,
 		Harnesses: []HarnessSpec{
-			{Fn: "VerifC04Isolation", Quick: map[string]int{"S": 2}, Thorough: map[string]int{"S": 2}, Witness: []string{"removed", "retained", "two-scripts", "fail", "skip", "pass-or-stop", "read-only-dir"}},
+			{Fn: "VerifC04Isolation", Quick: map[string]int{"S": 2}, Thorough: map[string]int{"S": 2}, Witness: []string{"removed", "retained", "two-scripts", "fail", "skip", "pass-or-stop", "read-only-dir", "deferred-function-ends-test"}},
 		},
 		Bounds: map[string]string{
 			"quick":    "one or two scripts run one after the other through the real RunT; exit kind pass / fail / skip / stop; a read-only directory with a file left in the work dir or not; host environment with GOCOVERDIR and GORACE present or absent plus unrelated variables; TestWork and WorkdirRoot on or off (all choices symbolic)",
@@ -237,7 +237,7 @@ var specs = []CheckSpec{
 		Outside:     []string{"parallel execution of subtests (t.Parallel is a no-op in the recording T: scripts run one at a time)", "background processes and their termination", "real directory removal semantics beyond the model"},
 	},
 	{
-		ID: "C11", Pkg: "cache",
+		ID: "C11", Pkg: "cache", UsesVFS: true,
 		Harnesses: []HarnessSpec{
 			{Fn: "VerifC11OneWriterOneReader", Quick: map[string]int{"L": 1}, Thorough: map[string]int{"L": 2}, Witness: []string{"fresh", "restore-identical", "overwrite", "lookup-hit", "lookup-miss", "getfile-hit", "several-snapshots"}},
 			{Fn: "VerifC11TwoWriters", Quick: map[string]int{"L": 2, "OBS": 0}, Thorough: map[string]int{"L": 2, "OBS": 0}, Witness: []string{"writer-b-ran", "identical-content", "different-content", "lookup-hit", "getfile-hit"}},
